@@ -519,6 +519,13 @@ pub struct RunSummary {
     pub inconclusive: Vec<String>,
 }
 
+fn case_timeout_s() -> u64 {
+    std::env::var("VERIF_CASE_TIMEOUT_S")
+        .ok()
+        .and_then(|s| s.parse().ok())
+        .unwrap_or(60)
+}
+
 fn self_exe() -> PathBuf {
     std::env::current_exe().expect("current_exe")
 }
@@ -556,7 +563,7 @@ fn subprocess_case(id: &str, family: &str, bytes: &[u8], tier: Tier, dir: &Path)
         match child.try_wait() {
             Ok(Some(_)) => break,
             Ok(None) => {
-                if t0.elapsed().as_secs() > 120 {
+                if t0.elapsed().as_secs() > case_timeout_s() {
                     let _ = child.kill();
                     let _ = child.wait();
                     let _ = fs::remove_file(&f);
@@ -591,12 +598,16 @@ fn subprocess_case(id: &str, family: &str, bytes: &[u8], tier: Tier, dir: &Path)
 /// Delta-debug a crashing byte string with subprocess runs (bounded budget).
 fn shrink_crash(id: &str, family: &str, bytes: &[u8], sig: &str, tier: Tier, dir: &Path) -> Vec<u8> {
     let mut best = bytes.to_vec();
+    let started = Instant::now();
     let mut budget = 150;
     let mut chunk = (best.len() / 2).max(1);
     while chunk >= 1 && budget > 0 {
         let mut i = 0;
         let mut progressed = false;
         while i < best.len() && budget > 0 {
+            if started.elapsed().as_secs() > 90 {
+                return best;
+            }
             let mut cand = best.clone();
             let end = (i + chunk).min(cand.len());
             cand.drain(i..end);
@@ -772,7 +783,14 @@ pub fn run_parent(prop: &dyn Property, tier: Tier, seed: u64) -> i32 {
                     if let Ok(line) = fs::read_to_string(&cur) {
                         if let Some((family, hx)) = line.trim().split_once(' ') {
                             let bytes = unhex(hx);
+                            let resource = tail.contains("memory allocation of") || tail.contains("failed to allocate");
                             match subprocess_case(id, family, &bytes, tier, &work) {
+                                Some(sig) if sig == "timeout" || resource => {
+                                    inconclusive.push(format!(
+                                        "worker {} ran out of time or memory ({} / {}); not a verdict on the property",
+                                        w, desc, sig
+                                    ));
+                                }
                                 Some(sig) => {
                                     if known_match(&known, &sig).is_some() {
                                         notes.push(format!(
